@@ -19,6 +19,7 @@ type GenOpts struct {
 	NVal       int
 	NHolders   int
 	NFresh     int
+	NReserved  int // funded actors of the directed scenarios; never used by the random filling
 	MaxTx      int
 	InvalidPct int // percentage of transactions that are intended-invalid
 	W          map[string]int
@@ -42,6 +43,8 @@ type Gen struct {
 	Keys  map[string]*Key // by address hex
 	All   []*Key
 	Fresh []*Key
+	Reserved []*Key
+	reserved map[string]bool
 	seq   int64
 	past  []*TxInfo // earlier transactions (for replays)
 	Anchor string
@@ -112,6 +115,14 @@ func NewGen(rng *rand.Rand, seed int64, o GenOpts, p DParams) *Gen {
 		k := deriveKey(seed, fmt.Sprintf("holder%d", i))
 		cfg.Holders = append(cfg.Holders, GenHolder{Key: k, Balance: e18(int64(100 + rng.Intn(2000)))})
 		g.add(k)
+	}
+	g.reserved = map[string]bool{}
+	for i := 0; i < o.NReserved; i++ {
+		k := deriveKey(seed, fmt.Sprintf("reserved%d", i))
+		cfg.Holders = append(cfg.Holders, GenHolder{Key: k, Balance: e18(int64(3000 + rng.Intn(1000)))})
+		g.Reserved = append(g.Reserved, k)
+		g.reserved[k.A()] = true
+		g.Keys[k.A()] = k
 	}
 	for i := 0; i < o.NFresh; i++ {
 		k := deriveKey(seed, fmt.Sprintf("fresh%d", i))
@@ -424,7 +435,12 @@ func (g *Gen) draft(kind string, invalid bool, h int64, sh *MState, P *DParams, 
 		}
 		d = mk(rctypes.TRX_STAKING, k, k.Addr, amt, nil, "stake-self")
 	case "delegate":
-		dks := sortedKeys(sh.Delegatees)
+		var dks []string
+		for _, dk := range sortedKeys(sh.Delegatees) {
+			if !g.reserved[dk] {
+				dks = append(dks, dk)
+			}
+		}
 		if len(dks) == 0 {
 			return nil
 		}
@@ -451,7 +467,7 @@ func (g *Gen) draft(kind string, invalid bool, h int64, sh *MState, P *DParams, 
 		var cs []cand
 		for _, dk := range sortedKeys(sh.Delegatees) {
 			for _, s := range sh.Delegatees[dk].Stakes {
-				if g.Keys[s.Owner] != nil {
+				if g.Keys[s.Owner] != nil && !g.reserved[s.Owner] {
 					if s.Owner == g.Anchor && s.To == g.Anchor {
 						continue // the anchor validator keeps its own stake: the set never becomes empty
 					}
@@ -471,7 +487,7 @@ func (g *Gen) draft(kind string, invalid bool, h int64, sh *MState, P *DParams, 
 	case "withdraw":
 		var cs []string
 		for _, rk := range sortedKeys(sh.Rewards) {
-			if g.Keys[rk] != nil && sh.Rewards[rk].Cumulated.Sign() > 0 {
+			if g.Keys[rk] != nil && !g.reserved[rk] && sh.Rewards[rk].Cumulated.Sign() > 0 {
 				cs = append(cs, rk)
 			}
 		}
